@@ -43,7 +43,11 @@ inductive Strat where
 /-- CorePolicy::Managed: the combinator retires (releases) the input before / instead of `Consume` -/
 def Strat.managed : Strat → Bool
   | .allVec _ => false
-  | _ => true
+  | .allTuple _ => true
+  | .join _ => true
+  | .anyNone => true
+  | .anyFF => true
+  | .anyLF => true
 
 /-- strategies whose word is the `atomic_bool _done` -/
 def Strat.usesFlag : Strat → Bool
@@ -94,22 +98,62 @@ inductive IPc where
   deriving DecidableEq, Repr
 
 def holding : IPc → Bool
-  | .dtorRel _ | .dtorSet | .dboom | .done => false
-  | _ => true
+  | .unreg => true
+  | .pending => true
+  | .retire => true
+  | .load => true
+  | .rmw => true
+  | .setOut _ => true
+  | .dec _ => true
+  | .dtorRel _ => false
+  | .dtorSet => false
+  | .boom => true
+  | .dboom => false
+  | .done => false
 
 def inDtor : IPc → Bool
-  | .dtorRel _ | .dtorSet | .dboom => true
-  | _ => false
+  | .unreg => false
+  | .pending => false
+  | .retire => false
+  | .load => false
+  | .rmw => false
+  | .setOut _ => false
+  | .dec _ => false
+  | .dtorRel _ => true
+  | .dtorSet => true
+  | .boom => false
+  | .dboom => true
+  | .done => false
 
 /-- the callback has been entered -/
 def entered : IPc → Bool
-  | .unreg | .pending => false
-  | _ => true
+  | .unreg => false
+  | .pending => false
+  | .retire => true
+  | .load => true
+  | .rmw => true
+  | .setOut _ => true
+  | .dec _ => true
+  | .dtorRel _ => true
+  | .dtorSet => true
+  | .boom => true
+  | .dboom => true
+  | .done => true
 
 /-- the consumption is past its decision on the strategy word -/
 def past : IPc → Bool
-  | .unreg | .pending | .retire | .load | .rmw => false
-  | _ => true
+  | .unreg => false
+  | .pending => false
+  | .retire => false
+  | .load => false
+  | .rmw => false
+  | .setOut _ => true
+  | .dec _ => true
+  | .dtorRel _ => true
+  | .dtorSet => true
+  | .boom => true
+  | .dboom => true
+  | .done => true
 
 structure State where
   reg : Nat                      -- loop index of the registration loop
@@ -239,16 +283,16 @@ def doFsubLf (w : Workload) (s : State) (i : Nat) : State :=
 def doSetOut (s : State) (i : Nat) (o : OutVal) : State :=
   { s with pc := upd s.pc i (.dec false), outSet := s.outSet ++ [o], pValid := false }
 
-/-- the plain write folded into the DecRef -/
-def doStore (w : Workload) (s : State) (i : Nat) : State :=
-  match w.strat with
-  | .allTuple _ => { s with slots := upd s.slots i (some (w.inp i)) }
-  | .anyFF => { s with saved := some (w.inp i) }
-  | _ => s
+/-- the plain write folded into the DecRef: `std::get<Index>(_tuple) = …` (AllTuple) / `error = …` (Any<FirstFail>) -/
+def storeSlots (w : Workload) (s : State) (i : Nat) (store : Bool) : Nat → Option Res :=
+  if store = true ∧ (w.strat = .allTuple false ∨ w.strat = .allTuple true) then upd s.slots i (some (w.inp i)) else s.slots
+
+def storeSaved (w : Workload) (s : State) (i : Nat) (store : Bool) : Option Res :=
+  if store = true ∧ w.strat = .anyFF then some (w.inp i) else s.saved
 
 def doDec (w : Workload) (s : State) (i : Nat) (store : Bool) : State :=
-  let s1 := if store then doStore w s i else s
-  let s2 := { s1 with count := s1.count - 1, dt := if s.count = 1 then some i else s1.dt }
+  let s2 := { s with count := s.count - 1, dt := if s.count = 1 then some i else s.dt,
+                     slots := storeSlots w s i store, saved := storeSaved w s i store }
   if s.count = 1 then
     match dtorStart w.strat s.pValid with
     | some p => setPc s2 i p
